@@ -483,6 +483,69 @@ def refused_add_box():
     return jobs
 
 
+def co_reached(job):
+    """Pairs of modules that some call of the history (or a final single-module export) reaches together."""
+    d = full_design(job)
+    n = len(job["design"])
+    pairs = set()
+    calls = []
+    for op in job["ops"]:
+        if op[0] == "NP":
+            n += 1
+        elif op[0] in CALLS:
+            calls.append(reach(d[:n], op_tops(op)))
+    calls += [reach(d, [m]) for m in job["final"]]
+    for c in calls:
+        for a in c:
+            for b in c:
+                pairs.add((a, b))
+    return pairs
+
+
+def assign_namesakes(job, r, p=0.5):
+    """Give some NEW modules (created by NP) the NAME of an existing module that no call reaches together with it:
+    two different objects with one name.  Caches keyed by object identity cannot tell; caches keyed by name can."""
+    co = co_reached(job)
+    n = len(job["design"])
+    taken = set()
+    ops = []
+    for op in job["ops"]:
+        if op[0] == "NP":
+            cands = [t for t in range(n) if (n, t) not in co and (t, n) not in co and t not in taken]
+            if cands and r.random() < p:
+                t = r.choice(cands)
+                taken.add(t)
+                taken.add(n)
+                op = ["NP", [list(op[1][0]), (op[1][1] & 255) | ((t + 1) << 8)]]
+            n += 1
+        ops.append(op)
+    return dict(job, ops=ops)
+
+
+def namesake_box():
+    """A leaf 0 (with / without dodged names) below a parent 1; after a call, a NEW leaf with the NAME of module 0 but
+    other colliding names, a new parent of the new leaf, and a new parent of the old leaf; every order of exporting them."""
+    jobs = []
+    n = 0
+    for h0 in (0, 32, 64, 128, 224):
+        for h2 in (0, 32, 192):
+            if h0 == h2:
+                continue
+            for first in (["E1", 0], ["P", [1]], ["N", [1, 0]]):
+                for order in ((3, 4), (4, 3)):
+                    n += 1
+                    leaf2 = ["NP", [[], h2 | (1 << 8) | (n % 2) * 16]]           # module 2: named M0
+                    par2 = ["NP", [[2] * (1 + n % 2), (0, 2, 1)[n % 3]]]          # module 3: parent of the namesake
+                    par0 = ["NP", [[0] * (1 + n // 2 % 2), (0, 2, 8)[n % 3] if n // 2 % 2 == 0 else (0, 2, 1)[n % 3]]]   # module 4
+                    ops = [first, leaf2, par2, par0] + [["PN"[(n + i) % 2], [t]] for i, t in enumerate(order)]
+                    if n % 3 == 0:
+                        ops.insert(2, ["E1", 2])
+                    # both leaves are elaborated by now: each refuses additions
+                    ops += [["ADDX", [2, n % ADD_VARIANTS]], ["ADDX", [0, (n + 5) % ADD_VARIANTS]], ["ADD", 3 + n % 2]]
+                    jobs.append(mk_job([[[], h0], [[0], 0]], ops, final=[1, 3, 4]))
+    return jobs
+
+
 def gen_random(r, nmod, maxkids, p_np=0.4):
     kl = [[]]
     for i in range(1, nmod):
@@ -498,8 +561,8 @@ def gen_random(r, nmod, maxkids, p_np=0.4):
     for _ in range(r.randint(2, 6)):
         u = r.random()
         if u < p_np * 0.5 and n < nmod + 2:
-            k = r.randint(1, maxkids)
-            spec = [[r.randrange(n) for _ in range(k)], r.randrange(32) | hi()]
+            k = r.randint(0, maxkids)          # k = 0: a new leaf
+            spec = [[r.randrange(n) for _ in range(k)], (r.randrange(32) if k else r.choice([0, 2, 16, 18])) | hi()]
             ops.append(["NP", spec])
             full.append(spec)
             n += 1
@@ -513,7 +576,7 @@ def gen_random(r, nmod, maxkids, p_np=0.4):
                 tops = list(dict.fromkeys(tops))
             ops.append([k, tops[0]] if k == "E1" else [k, tops])
             elaborated |= reach(full, tops[:1] if k == "E1" else tops)
-    return mk_job(design, ops)
+    return assign_namesakes(mk_job(design, ops), r)
 
 
 def malformed(seed, n):
@@ -538,7 +601,8 @@ def malformed(seed, n):
 # ------------------------------------------------------------------------------------------ coverage targets
 TARGETS = (["dodged_child_flattened_by_earlier_call:" + h for h in ("alone", "in_list", "under_parent")] +
            ["dodged_child_then_new_parent", "name_dodged_for_internal_signal_then_later_parent",
-            "refused_reuse_add_then_reexport", "refused_reuse_add_then_new_parent_export"] +
+            "refused_reuse_add_then_reexport", "refused_reuse_add_then_new_parent_export",
+            "namesake_modules_flattened_then_parent_of_one_flattened"] +
            [f"refused_add_variant_{v}" for v in range(ADD_VARIANTS)])
 
 
@@ -551,8 +615,12 @@ def coverage_of(job, out):
     ops = job["ops"] + [["P1", m] for m in job["final"]]
     recs = out["calls"] + out["final"]
     flat_at, dodged = {}, {}
+    name_of = lambda m: (d[m][1] >> 8) - 1 if d[m][1] >> 8 else m
     for i, (op, rec) in enumerate(zip(ops, recs)):
         for m, pre, post in rec.get("flat", []):
+            for c, _conns in pre["insts"]:
+                if c in flat_at and flat_at[c] < i and any(x != c and name_of(x) == name_of(c) and flat_at[x] < i for x in flat_at):
+                    hit.add("namesake_modules_flattened_then_parent_of_one_flattened")
             for c, _conns in pre["insts"]:
                 if c in flat_at and flat_at[c] < i and dodged.get(c):
                     tops = op_tops(ops[flat_at[c]]) if ops[flat_at[c]][0] != "P1" else [ops[flat_at[c]][1]]
@@ -691,6 +759,12 @@ def run(run, tier, seed, replay=None):
            "bundle over port, signal over instance, same kind, over a flattened port / signal, array over signal) x target child / parent, "
            "after a call that elaborated the target; then export again, create a new parent of the target, export it")
     run.sample(dict(stream="exhaustive-refused-add", case=jobs[5]))
+
+    jobs = namesake_box()
+    do("exhaustive-namesakes", jobs, "fork", exhaustive=True,
+       box="a leaf below a parent, a call, then a NEW leaf carrying the leaf's NAME (another object, other colliding names), a new "
+           "parent of each; colliding names of the two leaves x first call x order of the exports")
+    run.sample(dict(stream="exhaustive-namesakes", case=jobs[7]))
 
     # ---------------------------------------------------------------- structured random
     n_rand = 150 if quick else 1500
